@@ -26,8 +26,9 @@ Tr(s, ty) == M.trans[s + 1][ty]
 DrawIdx(s, ty, u16) == IF Tr(s, ty).draw > 0 THEN (u16 * Tr(s, ty).draw) \div 65536 ELSE 0
 Outcome(s, ty, u16) == Tr(s, ty).out[DrawIdx(s, ty, u16) + 1]
 
+\* the destination rule may differ for the LPs below / from M.split (chains hopping between two halves)
 MkSend(me, now, sd) ==
-  [lp |-> (me + sd.drule) % NLps, t |-> now + sd.delay, ty |-> sd.ty, pid |-> sd.pid]
+  [lp |-> (me + (IF me < M.split THEN sd.drule ELSE sd.drule2)) % NLps, t |-> now + sd.delay, ty |-> sd.ty, pid |-> sd.pid]
 
 \* handler semantics: state [s, cnt] of LP me receives event (now, ty, pid), library draw u16
 NextS(s, ty, pid, u16) == (Outcome(s, ty, u16).ns + PAdd(pid)) % M.K
